@@ -50,9 +50,9 @@ def mergeLossDetails (m : Metadata) : Metadata :=
 /-- wide CSV round trip (`from_wide_csv(field_cols, loss_detail_cols)`) -/
 def wideSpec (t out : List Cell) : Bool := sameNumeric out t
 
-/-- long CSV round trip -/
+/-- long CSV round trip (the merge can change where a slice sorts, hence the re-sort) -/
 def longSpec (t out : List Cell) : Bool :=
-  sameNumeric out (t.map fun c => { c with md := mergeLossDetails c.md })
+  sameNumeric out ((t.map fun c => { c with md := mergeLossDetails c.md }).mergeSort Cell.le)
 
 /-- every slice of the original is still a separate slice (metadata up to the loss-detail merge) -/
 def slicesSpec (merge : Bool) (t out : List Cell) : Bool :=
